@@ -283,6 +283,11 @@ def as_dates(hol):
 SPELLED = ['F', 'P', 'M', 'following', 'Following', 'prev', 'Previous', 'modified', 'MF', 'mod_following', 'p', 'f']
 
 
+def np_kinds(n):
+    """the numpy integer types that hold n (|n| <= 40): what `is_int` admits - signed of every width, np.longlong, unsigned for n >= 0"""
+    return ['int8', 'int8', 'int16', 'int32', 'int64', 'longlong'] + (['uint8', 'uint8', 'uint16', 'uint32', 'uint64', 'ulonglong'] if n >= 0 else [])
+
+
 def generate(rng, tier):
     ncal, ndays = (80, 120) if tier == 'quick' else (400, 400)
     # Gregorian self-test of the model
@@ -316,6 +321,11 @@ def generate(rng, tier):
                 if n == 0 and not (a0 is not None and nv.isb(a0)):
                     continue
                 lines.append('(cal add d %d %d)' % (t, n))
+            # the day count held by a numpy integer of any width (an integer read from an array; review5 w3 §2-3, defect C05-D4:
+            # `self.dt2int[t] + np.uint8(2)` raised OverflowError once the table index exceeds the width)
+            for n in [rng.choice([1, -1]), rng.choice([2, -2, 2, 3, -3]), rng.randrange(-40, 41)]:
+                if n != 0:
+                    lines.append('(cal addnp %s %d %s %d)' % (rng.choice('dfpm'), t, rng.choice(np_kinds(n)), n))
             a = rng.choice('fpm')
             n = rng.choice([1, -1, 2, -2, 5, -5, rng.randrange(-40, 41)])
             aa = nv.adjust(t, a)
@@ -462,6 +472,9 @@ def run_line(state, sx):
         return 'ok ' + proto.enc(bool(c.is_holiday(fo(int(args[0])))))
     if op == 'adjust':
         return 'ok I:%d' % to(c.adjust(fo(int(args[1])), _adj(args[0])))
+    if op == 'addnp':
+        import numpy as np
+        return 'ok I:%d' % to(c.add(fo(int(args[1])), getattr(np, args[2])(int(args[3])), adj=_adj(args[0])))
     if op in ('add', 'bump') and int(args[2]) == 0 and c.is_holiday(c.adjust(fo(int(args[1])), _adj(args[0]))):
         return 'err Other'    # `while self.is_holiday(res): res = res + 0 * DAY` would never return (the model says the same)
     if op == 'add':
@@ -609,6 +622,13 @@ def _laws(rng, tier, ctx):
                 if got != fo(want):
                     yield bad('add-nth', ['(cal add d %d %d)' % (t, n)], 'add(%s, %d) = %s, the %d-th business day from adjust(t) is %s' % (T, n, got, n, fo(want)))
                     continue
+                if n != 0 and rng.random() < 0.3:      # the same n held by a numpy integer (defect C05-D4)
+                    import numpy as np
+                    k = rng.choice(np_kinds(n))
+                    count += 1
+                    gotk = call(lambda: c.add(T, getattr(np, k)(n)))
+                    if gotk != fo(want):
+                        yield bad('add-nth-np', ['(cal addnp d %d %s %d)' % (t, k, n)], 'add(%s, np.%s(%d)) = %s, the %d-th business day from adjust(t) is %s' % (T, k, n, gotk, n, fo(want)))
                 ck = call(lambda: c.clock(got) - c.clock(T))     # clock = the position in the business-day table: it advances by n
                 if ck != n:
                     yield bad('clock', ['(cal add d %d %d)' % (t, n), '(cal clock %d)' % t, '(cal clock %d)' % want], 'clock(add(t, %d)) - clock(t) = %s' % (n, ck))
